@@ -6,6 +6,22 @@ the vocabulary its native meaning.
 """
 REGISTRY = {}
 SPECS = {}
+EXAMPLES = {}    # target -> generator(tier, rng) of keyword-argument dicts for the real function
+ADAPTERS = {}    # target -> f(repo_root) returning a callable taking those keyword arguments
+
+
+def examples(target):
+    def deco(fn):
+        EXAMPLES[target] = fn
+        return fn
+    return deco
+
+
+def adapter(target):
+    def deco(fn):
+        ADAPTERS[target] = fn
+        return fn
+    return deco
 
 
 def contract(target, args=None, returns=None, **kw):
@@ -34,6 +50,21 @@ def forall(lo, hi, f, trigger=None):
 
 def exists(lo, hi, f, trigger=None):
     return any(bool(f(i)) for i in range(int(lo), int(hi)))
+
+
+UNIVERSE = list(range(-2, 12))
+
+
+def forall_int(f):
+    import itertools
+    k = f.__code__.co_argcount
+    return all(bool(f(*t)) for t in itertools.product(UNIVERSE, repeat=k))
+
+
+def exists_int(f):
+    import itertools
+    k = f.__code__.co_argcount
+    return any(bool(f(*t)) for t in itertools.product(UNIVERSE, repeat=k))
 
 
 def implies(a, b):
